@@ -317,7 +317,7 @@ func c15Run(c *mon.Ctx, unit int) {
 			}
 			continue
 		}
-		if co := lib.Safe(sch.Check); !co.OK {
+		if co := lib.CheckObs(sch); !co.OK {
 			c.Count("generated schema rejected by Check (skipped): "+class, 1)
 			if co.Panic != "" {
 				c.Violate("panic", c15Case{sp}, "no panic", co.String(), "Check panicked")
